@@ -453,3 +453,163 @@ Theorem C02_weighted_select_rows :
       nth_error rw j = (if b then nth_error ow j else nth_error cw j).
 Proof. exact wwhere_rows. Qed.
 Print Assumptions C02_weighted_select_rows.
+
+(** * n-dimensional values: per-individual values with a TRAILING shape, [right_broadcasting] both ways (State/StateNdExec.v)
+
+    [tens] = nested lists of exact atoms (row [i] of a per-individual value is an element of a list whatever its trailing shape);
+    [twhere (rb, m) old cur] = [torch.where] with the 1-d [subset] aligned on the first axis ([rb = true], the default of
+    [State.revert]) or on the last one ([right_broadcasting=False]), restricted to the documented contract (same shapes, one mask
+    entry per index of that axis); [twhere_torch] / [nselect_torch] = what torch does, broadcasting and refusals included.
+    Tie: directed [State.revert] calls on real states compared with both inside Coq on every run ([check_nselect]). *)
+From Leaspy Require Import State.StateNdExec State.StateNdExecProofs.
+
+(** right-broadcasting: row [j] of the result is the FORKED row where [m j] holds and the CURRENT row elsewhere, the rows being
+    tensors of ANY shape *)
+Theorem C02_nd_select_rows :
+  forall m o c r, twhere (true, m) o c = Some r ->
+    length (rows r) = length m /\
+    forall j b, nth_error m j = Some b ->
+      nth_error (rows r) j = (if b then nth_error (rows o) j else nth_error (rows c) j).
+Proof. exact twhere_rows. Qed.
+Print Assumptions C02_nd_select_rows.
+
+(** ... values and weights alike (any non-negative weights): row [j] of the value and row [j] of the weight come from the same side *)
+Theorem C02_nd_weighted_select_rows :
+  forall m ov ow cv cw r, nselect (true, m) (NW ov (Some ow)) (NW cv (Some cw)) = Some r ->
+    exists rv rw, r = NW rv (Some rw) /\ length (rows rv) = length m /\ length (rows rw) = length m /\
+    forall j b, nth_error m j = Some b ->
+      nth_error (rows rv) j = (if b then nth_error (rows ov) j else nth_error (rows cv) j) /\
+      nth_error (rows rw) j = (if b then nth_error (rows ow) j else nth_error (rows cw) j).
+Proof. exact nselect_rows. Qed.
+Print Assumptions C02_nd_weighted_select_rows.
+
+(** [right_broadcasting=False]: the mask is aligned on the LAST axis — every innermost vector of the result (index path [p] over
+    all the axes but the last) is the entry-by-entry selection of the two innermost vectors at the same path *)
+Theorem C02_nd_last_axis :
+  forall m o c r s, twhere (false, m) o c = Some r -> shape o = Some s ->
+    forall p o' c', length p = length s - 1 -> tsub p o = Some o' -> tsub p c = Some c' ->
+      tsub p r = Some (TL (selp m (rows o') (rows c'))).
+Proof. exact twhere_last_axis. Qed.
+Print Assumptions C02_nd_last_axis.
+
+(** refusals: (1) the assertion [old_v.shape == cur_v.shape] of [revert] *)
+Theorem C02_nd_refused_bad_shapes :
+  forall mk o c, shape o <> shape c -> twhere_torch mk o c = None /\ twhere mk o c = None.
+Proof. exact twhere_torch_bad_shapes. Qed.
+Print Assumptions C02_nd_refused_bad_shapes.
+
+(** (2) torch's broadcasting error: the axis the mask is aligned on has length [k], the mask has neither length [k] nor 1, [k <> 1] *)
+Theorem C02_nd_refused_by_torch :
+  forall rb m o c s k, shape o = Some s -> shape c = Some s ->
+    nth_error s (mdepth rb s) = Some k -> Forall (fun n => 0 < n) (firstn (mdepth rb s) s) ->
+    k <> length m -> length m <> 1 -> k <> 1 -> twhere_torch (rb, m) o c = None.
+Proof. exact twhere_torch_refuses. Qed.
+Print Assumptions C02_nd_refused_by_torch.
+
+(** (3) the contract: whatever torch accepts by changing the shape (a mask of another length than its axis, a 0-d value) is outside *)
+Theorem C02_nd_contract_needs_fit :
+  forall rb m o c s, shape o = Some s -> nth_error s (mdepth rb s) <> Some (length m) -> twhere (rb, m) o c = None.
+Proof. exact twhere_needs_fit. Qed.
+Print Assumptions C02_nd_contract_needs_fit.
+
+(** inside the contract the selection IS what torch does, and it keeps the shape of the two sides *)
+Theorem C02_nd_contract_is_torch :
+  forall mk old cur r, nselect mk old cur = Some r -> nselect_torch mk old cur = Some r.
+Proof. exact nselect_sub_torch. Qed.
+Print Assumptions C02_nd_contract_is_torch.
+
+Theorem C02_nd_contract_keeps_shape :
+  forall mk o c r, twhere mk o c = Some r -> shape r = shape o /\ shape r = shape c.
+Proof. exact twhere_keeps_shape. Qed.
+Print Assumptions C02_nd_contract_keeps_shape.
+
+(** non-vacuity: a (3, 2) value under both alignments, each refusal, the shape-changing calls torch accepts, a (2, 2) weighted value
+    with non-boolean weights, the two rules that are NOT the code (weight of one side for all rows; mask aligned on the wrong
+    side) giving something else on the same input, a value weighted on one side only *)
+Local Open Scope Z_scope.
+Theorem C02_nd_select_examples :
+  (* right-broadcasting: rows 0 and 2 forked, row 1 current *)
+  twhere (true, [true; false; true]) (mat [[1;2];[3;4];[5;6]]) (mat [[10;20];[30;40];[50;60]]) = Some (mat [[1;2];[30;40];[5;6]]) /\
+  (* right_broadcasting=False: the mask (length 2) is aligned on the LAST axis: column 0 forked, column 1 current *)
+  twhere (false, [true; false]) (mat [[1;2];[3;4];[5;6]]) (mat [[10;20];[30;40];[50;60]]) = Some (mat [[1;20];[3;40];[5;60]]) /\
+  (* refused by torch: the per-individual mask (length 3) against the last axis (length 2), and conversely *)
+  twhere_torch (false, [true; false; true]) (mat [[1;2];[3;4];[5;6]]) (mat [[10;20];[30;40];[50;60]]) = None /\
+  twhere_torch (true, [true; false]) (mat [[1;2];[3;4];[5;6]]) (mat [[10;20];[30;40];[50;60]]) = None /\
+  (* refused by the assertion of [revert]: the two sides have different shapes *)
+  twhere_torch (true, [true; false]) (mat [[1;2];[3;4]]) (vec [1;2]) = None /\
+  (* accepted by torch, outside the contract (the shape changes): a (3, 1) value with [right_broadcasting=False] becomes (3, 2);
+     a value with one row is expanded to the length of the mask; a 0-d value becomes 1-d *)
+  twhere_torch (false, [true; false]) (mat [[1];[3];[5]]) (mat [[10];[30];[50]]) = Some (mat [[1;10];[3;30];[5;50]]) /\
+  twhere (false, [true; false]) (mat [[1];[3];[5]]) (mat [[10];[30];[50]]) = None /\
+  twhere_torch (true, [true; false; true]) (mat [[1;2]]) (mat [[10;20]]) = Some (mat [[1;2];[10;20];[1;2]]) /\
+  twhere (true, [true; false; true]) (mat [[1;2]]) (mat [[10;20]]) = None /\
+  twhere_torch (true, [true; false]) (T0 (AFin 1)) (T0 (AFin 10)) = Some (vec [1; 10]) /\
+  (* a weighted (2, 2) value with NON-boolean weights: value and weight of row 1 forked, of row 0 current *)
+  nselect (true, [false; true]) (NW (mat [[1;2];[3;4]]) (Some (mat [[2;0];[0;5]]))) (NW (mat [[10;20];[30;40]]) (Some (mat [[0;3];[1;1]])))
+    = Some (NW (mat [[10;20];[3;4]]) (Some (mat [[0;3];[0;5]]))) /\
+  (* the two rules that are NOT the code give something else on the same input *)
+  nselect_old_weight (true, [false; true]) (NW (mat [[1;2];[3;4]]) (Some (mat [[2;0];[0;5]]))) (NW (mat [[10;20];[30;40]]) (Some (mat [[0;3];[1;1]])))
+    = Some (NW (mat [[10;20];[3;4]]) (Some (mat [[2;0];[0;5]]))) /\
+  nselect_wrong_side (true, [false; true]) (NW (mat [[1;2];[3;4]]) (Some (mat [[2;0];[0;5]]))) (NW (mat [[10;20];[30;40]]) (Some (mat [[0;3];[1;1]])))
+    = Some (NW (mat [[10;2];[30;4]]) (Some (mat [[0;0];[1;5]]))) /\
+  (* a value weighted on ONE side only: torch gives the rows of the un-weighted side the OTHER side's weight; outside the contract *)
+  nselect_torch (true, [true; false]) (NW (vec [5;7]) None) (NW (vec [1;2]) (Some (vec [0;1]))) = Some (NW (vec [5;2]) (Some (vec [0;1]))) /\
+  nselect (true, [true; false]) (NW (vec [5;7]) None) (NW (vec [1;2]) (Some (vec [0;1]))) = None.
+Proof. exact nd_select_examples. Qed.
+Local Close Scope Z_scope.
+Print Assumptions C02_nd_select_examples.
+
+(** the partial-revert theorem on every n-d toy graph whose per-individual derived nodes are entry-wise (any number of parents,
+    weighted parents included): [F_mix] is PROVED there (StateNdFmixProofs.v), no hypothesis on node functions is left *)
+From Leaspy Require Import State.StateNow State.StateNdFmixProofs.
+
+Theorem C02_partial_revert_nd :
+  forall l : list dspec,
+  gwf_b (mk_ngraph l) = true -> entrywise_axis_b l = true ->
+  let g := mk_ngraph l in
+  forall (st : state nval) (i : nat) (o : option nval) (reads : list nat) (m : nmask),
+    Good g st -> mode st <> None -> i < gn g -> settable g i = true -> ind_axis g i = true ->
+    (forall r, In r reads -> axis_read_ok g i r) ->
+    let st1 := fst (set_state g true st i o) in
+    let st2 := gets g st1 reads in
+    shapes_ok g nsem m i (values st) (values st2) ->
+    let st3 := fst (revert_mask_state nsem st2 m) in
+    snd (revert_mask_state nsem st2 m) = Done /\
+    (forall j, In j (i :: desc g i) ->
+       values st3 j = match values st j, values st2 j with Some old, Some cur => nselect m old cur | _, _ => None end) /\
+    (forall j, ~ In j (i :: desc g i) -> values st3 j = values st2 j) /\
+    (forall j w, ~ In j (i :: desc g i) -> values st j = Some w -> values st3 j = Some w) /\
+    (forall j, In j (desc g i) -> ind_axis g j = false -> values st3 j = None) /\
+    Good g st3 /\ fork st3 = None /\ mode st3 = mode st.
+Proof. exact partial_revert_nd. Qed.
+Print Assumptions C02_partial_revert_nd.
+
+(** a value weighted on ONE side only, with what torch does: the history meets the precondition, the rejected row of the variable
+    itself carries the weight of the rejected proposal and a cached derived value is stale (a finding, replayed on the code) *)
+Theorem C02_one_sided_weight_refuted :
+  gwf_b (mk_ngraph one_sided_nodes) = true /\
+  MaskDisciplined (mk_ngraph one_sided_nodes) nsem_torch (init_store (mk_ngraph one_sided_nodes)) one_sided_ops /\
+  nread_of (mk_ngraph one_sided_nodes) nsem_torch true one_sided_ops 0 0 = Ok (NW (vec [5; 2]%Z) (Some (vec [0; 1]%Z))) /\
+  nread_of (mk_ngraph one_sided_nodes) nsem_torch true one_sided_ops 0 1 = Ok (NP (vec [5; 2]%Z)) /\
+  nfresh_of (mk_ngraph one_sided_nodes) nsem_torch true one_sided_ops 0 1 = Some (Some (NP (vec [0; 2]%Z))).
+Proof. exact one_sided_weight_refuted. Qed.
+Print Assumptions C02_one_sided_weight_refuted.
+
+(** the headline on n-d values: after a forked assignment, reads allowed by the contract and [revert(mask)] (right-broadcasting), row [j]
+    of EVERY doubly cached node of the forked sub-graph — plain or weighted, whatever its trailing shape — is the forked row where
+    [mask j] holds and the current row elsewhere, the value and the weight of a row coming from the same side ([rows_selected]) *)
+Theorem C02_partial_revert_nd_rows :
+  forall l : list dspec,
+  gwf_b (mk_ngraph l) = true -> entrywise_axis_b l = true ->
+  let g := mk_ngraph l in
+  forall (st : state nval) (i : nat) (o : option nval) (reads : list nat) (m : list bool),
+    Good g st -> mode st <> None -> i < gn g -> settable g i = true -> ind_axis g i = true ->
+    (forall r, In r reads -> axis_read_ok g i r) ->
+    let st1 := fst (set_state g true st i o) in
+    let st2 := gets g st1 reads in
+    shapes_ok g nsem (true, m) i (values st) (values st2) ->
+    let st3 := fst (revert_mask_state nsem st2 (true, m)) in
+    forall j old cur r, In j (i :: desc g i) -> values st j = Some old -> values st2 j = Some cur -> values st3 j = Some r ->
+      rows_selected m old cur r.
+Proof. exact partial_revert_nd_rows. Qed.
+Print Assumptions C02_partial_revert_nd_rows.
